@@ -162,10 +162,12 @@ module M = struct
                 | _ -> Random.State.int rng 25 = 0) in
             if keep then [(w, QCancel (nat_of_int t))] else []) thr in
       let evs = order rng (calls @ steps @ cancels) in
-      List.filter (fun e ->
+      let evs = List.filter (fun e ->
           match lbq_exec1 c e with
           | Some (c', _) -> not (both_ready c')
-          | None -> false) evs
+          | None -> false) evs in
+      (* nothing else to do: cancel the parked calls (a schedule never ends with a goroutine parked in a select) *)
+      if evs = [] then List.map (fun (t, _) -> QCancel (nat_of_int t)) parked else evs
     end
 
   let op_str = function
